@@ -1227,4 +1227,4 @@ mod tests {
 
 #[cfg(any(kani, rescrv_blue_verif))]
 #[path = "/verif/hk/skipfree/mod.rs"]
-mod verif_harness;
+pub mod verif_harness;
